@@ -222,9 +222,12 @@ def exempt(ctx, f, eff, w, r):
     if rkind == 'implicit' and isinstance(rnode, ast.Call) and isinstance(rnode.func, ast.Attribute) and rnode.func.attr == 'remove':
         conds = facts.node_conditions(prog, f, rnode, ctx.typer, expand=False)
         x, L = rnode.args[0], rnode.func.value
-        if any(p and isinstance(t, ast.Compare) and isinstance(t.ops[0], ast.In) and same(t.left, x) and same(t.comparators[0], L)
-               for t, p in conds):
-            return "E2 remove(x) under `x in list`"
+        for t, p in conds:
+            for a, q in facts.split_conj(t, p):
+                a, q = facts.norm_cond(a, q)
+                if q and isinstance(a, ast.Compare) and len(a.ops) == 1 and isinstance(a.ops[0], ast.In) and same(a.left, x) and \
+                        same(a.comparators[0], L):
+                    return "E2 remove(x) under `x in list`"
     if f.qual == 'task._ChildrenList.move' and rkind == 'implicit':
         return "E2 lookups validated before the first list change (obligation move_validates_first)"
     if f.qual == 'task._ChildrenList.insert' and rkind == 'call' and rcallee is not None and rcallee.qual in (
@@ -254,17 +257,19 @@ def cannot_reject(ctx, o, eff):
     prog = ctx.prog
     f = prog.func('task._ChildrenList.remove')
     ok = False
+    exf = Expander(prog, f, ctx.typer, inline=True)
     for st, tgt, val in facts.attr_stores(f, 'children'):
-        if match("self._ChildrenList__parent", tgt.value):
-            parts = facts.comp_parts(val)
-            if parts and isinstance(parts[0], ast.Name) and match("self._list", parts[2]) and isinstance(parts[1], ast.Name) and \
-                    parts[0].id == parts[1].id and len(parts[3]) == 1:
-                ok = True
+        if match("self._ChildrenList__parent", exf.expand(tgt.value, cfg_of(f).node_of(st))):
+            ok = True
+            vx = exf.expand(val, cfg_of(f).node_of(st))
+            sub = _sublist_of_live(vx)
+            if sub is True:
                 o.site(f, st, "owner.children = [t for t in self._list if t != task]: a sub-list of the current children")
-            else:
-                o.refute(f, st, st, f"remove() assigns `{src(val)[:60]}`, which is not a filtered sub-list of the live child list: the assumption "
+            elif sub is False:
+                o.refute(f, st, st, f"remove() assigns `{src(vx)[:60]}`, which is not a filtered sub-list of the live child list: the assumption "
                                     f"'removal cannot be rejected' does not hold")
-                ok = True
+            else:
+                o.undecided(f, st, st, f"remove() assigns `{src(vx)[:60]}`: not recognised as a filtered sub-list of the live child list")
     if not ok:
         o.undecided(f, f.node, 'remove', "remove() does not assign the owner's children")
     for q in ('task.Task._attach', 'task.Task._detach'):
@@ -285,11 +290,48 @@ def cannot_reject(ctx, o, eff):
         else:
             o.refute(p, rr[0], rr[0], "re-rooting is attempted without a WBS")
     w = prog.func('wbs.WBS.__remove')
-    exw = Expander(prog, w, ctx.typer, inline=False)
-    if any(match("$c.children.remove($t)", exw.expand(n)) for n in facts.calls_named(w, 'remove')):
+    # the removal itself may sit in a private helper of WBS that __remove delegates to
+    todo, seen_f = [w], []
+    while todo:
+        g = todo.pop()
+        if any(g is x for x in seen_f) or len(seen_f) > 6:
+            continue
+        seen_f.append(g)
+        for ci in ctx.cg.calls_in(g):
+            for t in ci.targets:
+                if t is not None and t.cls == w.cls and t.module is w.module and t.name.startswith('_') and ci.kind == 'call':
+                    todo.append(t)
+    hit = False
+    for g in seen_f:
+        exw = Expander(prog, g, ctx.typer, inline=False)
+        if any(match("$c.children.remove($t)", exw.expand(n)) for n in facts.calls_named(g, 'remove')):
+            hit = True
+    if hit:
         o.site(w, w.node, "WBS.__remove removes through the child list facade")
     else:
         o.undecided(w, w.node, '__remove', "WBS.__remove in an unrecognised form")
+
+
+def _sublist_of_live(v):
+    """True: v is a filtered copy of the live child list (same elements, same order, some left out); False: v positively contains
+    something else (concatenation with other elements, mapped elements); None: not recognised"""
+    if isinstance(v, ast.BinOp) and isinstance(v.op, ast.Add):
+        for a, b in ((v.left, v.right), (v.right, v.left)):
+            if isinstance(a, ast.List) and not a.elts:
+                return _sublist_of_live(b)
+        return False
+    m = match("list($x)", v) or match("$x.copy()", v) or match("$x[:]", v)
+    if m:
+        return True if match("self._list", m['x']) else _sublist_of_live(m['x'])
+    m = match("list(filter($f, $x))", v)
+    if m and match("self._list", m['x']):
+        return True
+    parts = facts.comp_parts(v)
+    if parts and (match("self._list", parts[2]) or match("self", parts[2])) and isinstance(parts[1], ast.Name):
+        if isinstance(parts[0], ast.Name) and parts[0].id == parts[1].id:
+            return True
+        return False
+    return None
 
 
 def _swap_roles(atom: str) -> str:
@@ -336,64 +378,211 @@ def prevalidated(ctx, o, eff):
         T.require(ctx, o, caller, label, R, writes, eff, needs_elem=False, mode_filter=_reaches_under)
     # ids: duplicates inside the argument are part of _has_id_intersection
     h = prog.func('task._has_id_intersection')
-    dup = False
-    for r in [n for n in walk_no_nested(h.node) if isinstance(n, ast.Return) and isinstance(n.value, ast.Constant) and n.value.value is True]:
-        for t, p in facts.node_conditions(prog, h, r, ctx.typer):
-            if isinstance(t, ast.Compare) and 'len(' in src(t) and p:
-                dup = True
-    if dup:
+    verdict, node, why = _duplicate_id_check(ctx, h)
+    if verdict is True:
         o.site(h, h.node, "the group id check also rejects equal ids inside the argument (element k+1 is then compatible with the tree that "
                           "already holds elements 1..k)")
+    elif verdict is False:
+        o.refute(h, node, why[0], why[1])
     else:
-        o.refute(h, h.node, 'duplicates inside the argument', "the group id check compares every element with the receiving tree only: two new "
-                                                              "tasks with equal ids pass it and the second is rejected after the first was attached")
+        o.undecided(h, node, 'duplicates inside the argument', why)
+
+
+def _truth_conditions(ctx, h):
+    """[[(test, polarity)]]: the conjunctions (expanded) under which the predicate h returns a true value; None when a return
+    value is not understood"""
+    prog = ctx.prog
+    ex = Expander(prog, h, ctx.typer, inline=True)
+    cfg = cfg_of(h)
+    out = []
+
+    def value(v, path):
+        if isinstance(v, ast.Constant):
+            if v.value:
+                out.append(path)
+            return
+        if isinstance(v, ast.IfExp):
+            value(v.body, path + facts.split_conj(v.test, True))
+            value(v.orelse, path + facts.split_conj(v.test, False))
+            return
+        if isinstance(v, ast.BoolOp) and isinstance(v.op, ast.Or):
+            for x in v.values:
+                value(x, path)
+            return
+        out.append(path + facts.split_conj(v, True))
+    for r in [n for n in walk_no_nested(h.node) if isinstance(n, ast.Return)]:
+        if r.value is None:
+            continue
+        value(ex.expand(r.value, cfg.node_of(r)), list(facts.node_conditions(prog, h, r, ctx.typer, expand=True)))
+    return out
+
+
+def _keyed_by_task_id(e):
+    """e is a dict/set built with the task id as key: {t.id: t for ..}, {t.id for ..}, dict((t.id, t) for ..) - or a view of one"""
+    m = match("$d.keys()", e) or match("$d.values()", e) or match("list($d)", e) or match("set($d)", e) or match("$d.items()", e)
+    if m:
+        return _keyed_by_task_id(m['d'])
+    if isinstance(e, ast.DictComp) and isinstance(e.key, ast.Attribute) and e.key.attr == 'id' and isinstance(e.key.value, ast.Name):
+        return True
+    return False
+
+
+def _duplicate_id_check(ctx, h):
+    """does the group id check answer True when two different incoming task objects carry the same id?
+    (True, None, None) | (False, node, (construct, msg)) | (None, node, msg)"""
+    tcs = _truth_conditions(ctx, h)
+    cands = []
+    for path in tcs:
+        for t, p in path:
+            t, p = facts.norm_cond(t, p)
+            if not (isinstance(t, ast.Compare) and len(t.ops) == 1):
+                continue
+            op = type(t.ops[0])
+            sides = [t.left, t.comparators[0]]
+            lens = [match("len($x)", s_) for s_ in sides]
+            if not all(lens):
+                continue
+            xs = [m['x'] for m in lens]
+            # one side counts distinct ids, the other counts tasks
+            for ids_side, tasks_side, ids_left in ((xs[0], xs[1], True), (xs[1], xs[0], False)):
+                inner = match("set($a)", ids_side)
+                idsrc = inner['a'] if inner else (ids_side if isinstance(ids_side, ast.SetComp) else None)
+                if idsrc is None:
+                    continue
+                cands.append(t)
+                differs = (op is ast.Eq and not p) or (op in (ast.Lt, ast.Gt) and p and ((op is ast.Lt) == ids_left))
+                if _keyed_by_task_id(tasks_side) or _keyed_by_task_id(idsrc):
+                    return False, h.node, ('duplicates inside the argument',
+                                           f"the incoming tasks are collected in a container keyed by task id (`{src(tasks_side)[:70]}`) before "
+                                           f"their ids are counted: two different new tasks with the same id collapse into one, the duplicate "
+                                           f"check `{src(t)[:60]}` can never fire and the second task is rejected only after the first was attached")
+                parts = facts.comp_parts(idsrc)
+                if parts and isinstance(parts[0], ast.Attribute) and parts[0].attr == 'id' and isinstance(parts[1], ast.Name) and                         isinstance(parts[0].value, ast.Name) and parts[0].value.id == parts[1].id and not parts[3] and                         same(parts[2], tasks_side) and differs:
+                    return True, None, None
+    if cands:
+        return None, h.node, f"id-count comparison `{src(cands[0])[:80]}` in a form the rule does not recognise"
+    # closed world: every answer of the helper was collected and none compares a number of distinct ids with a number of tasks
+    pkg_calls = [c for path in tcs for t, p in path for c in ast.walk(t)
+                 if isinstance(c, ast.Call) and isinstance(c.func, ast.Name) and c.func.id.startswith('_')
+                 and c.func.id not in ('_collect_subtree', '_find_root')]
+    if not tcs or pkg_calls:
+        return None, h.node, "the answers of the group id check are not fully understood (helper calls / no true answer found)"
+    return False, h.node, ('duplicates inside the argument',
+                           "the group id check compares every element with the receiving tree only: two new tasks with equal ids pass it and "
+                           "the second is rejected after the first was attached")
+
+
+def move_requirements(f):
+    """what move() must have rejected before it touches the list, as formulas over the canonical atoms (roles: arg = the moved tasks,
+    elem = one of them; the anchors keep their parameter names).  The relocation loop uses `before` when given, else `after`.
+    -> [(key, label, formula, needs_elem)]"""
+    bp, ap = f.params[2], f.params[3]
+    A, N, AND = T.F_atom, T.F_not, T.F_and
+    lst = 'self._list'
+    return [
+        ('task_in_list', "every moved task is in the list", N(A(f"in(elem,{lst})")), True),
+        ('before_in_list', "`before` is in the list", AND(N(A(f"none({bp})")), N(A(f"in({bp},{lst})"))), False),
+        ('after_in_list', "`after` is in the list", AND(A(f"none({bp})"), N(A(f"none({ap})")), N(A(f"in({ap},{lst})"))), False),
+        ('anchor_given', "an anchor is given", AND(A(f"none({bp})"), A(f"none({ap})")), False),
+        ('before_not_moved', "`before` is not one of the moved tasks", AND(N(A(f"none({bp})")), A(f"in({bp},arg)")), False),
+        ('after_not_moved', "`after` is not one of the moved tasks", AND(A(f"none({bp})"), N(A(f"none({ap})")), A(f"in({ap},arg)")), False),
+    ]
 
 
 def move_rule(ctx, o):
     prog = ctx.prog
     f = prog.func('task._ChildrenList.move')
-    cfg = cfg_of(f)
-    gs = facts.guards_of(prog, f, ctx.typer, inline=False)
-    W = [c for c in facts.calls_named(f, 'remove') + facts.calls_named(f, 'insert') if match("self._list.$m($*a)", c)]
-    if not W:
+    eff = Effects(prog, ctx.typer, ctx.cg)
+    writes = [w for w in relation_write_nodes(ctx, f, eff) if isinstance(w[1], ast.AST)]
+    if not writes:
         o.undecided(f, f.node, 'move', "no list change found")
         return
-    first_w = [cfg.node_containing(c) for c in W]
+    for key, label, R, needs_elem in move_requirements(f):
+        T.require(ctx, o, f, f"move() validates that {label} before it changes the list (a failure afterwards leaves a task removed)",
+                  R, writes, eff, needs_elem)
 
-    def precedes(g):
-        dn = cfg.node_of(cfg.enclosing_fors(g.cfg_node)[0]) if cfg.enclosing_fors(g.cfg_node) else cfg.node_containing(cfg.conditions(g.cfg_node)[-1][0])
-        return all(cfg.dominates(dn, w) and not (cfg.enclosing_fors(g.cfg_node) and cfg.can_reach(w, dn)) for w in first_w)
 
-    def has(pred):
-        for g in gs:
-            if g.exc != 'RuntimeError':
-                continue
-            atoms = []
-            for t, p in g.conds:
-                atoms += facts.split_conj(t, p)
-            if pred(g, atoms):
-                return g if precedes(g) else ('late', g)
+def _is_none(e) -> bool:
+    return isinstance(e, ast.Constant) and e.value is None
+
+
+def _lt_len(test, pol, l, i):
+    """does the condition (test, polarity) say `i < len(l)`?  True / False (a recognised comparison of i with len(l) that is
+    NOT `i < len(l)`, e.g. `<=`) / None (something else)"""
+    t, p = test, pol
+    while isinstance(t, ast.UnaryOp) and isinstance(t.op, ast.Not):
+        t, p = t.operand, not p
+    if not (isinstance(t, ast.Compare) and len(t.ops) == 1):
         return None
-    tasks_p, before_p, after_p = f.params[1], f.params[2], f.params[3]
-    checks = [
-        ("every moved task is in the list", lambda g, a: any((match("$t not in self._list", t) and p) or (match("$t in self._list", t) and not p) for t, p in a)
-         and any(isinstance(tg, ast.Name) for tg, it in g.binders)),
-        ("`before` is in the list", lambda g, a: any(match(f"{before_p} not in self._list", t) and p for t, p in a)),
-        ("`after` is in the list", lambda g, a: any(match(f"{after_p} not in self._list", t) and p for t, p in a)),
-        ("an anchor is given", lambda g, a: {src(t) for t, p in a if p} >= {f"{before_p} is None", f"{after_p} is None"}),
-        ("the anchor is not one of the moved tasks",
-         lambda g, a: any(p and (f"{before_p} in " in src(t)) for t, p in a) and any(p and (f"{after_p} in " in src(t)) for t, p in a)
-         or any(p and f"{before_p} in " in src(t) and f"{after_p} in " in src(t) for t, p in a)),
-    ]
-    for label, pred in checks:
-        r = has(pred)
-        if r is None:
-            o.refute(f, f.node, label, f"move() does not validate that {label} before it changes the list: the failure happens after a task was "
-                                       f"already removed")
-        elif isinstance(r, tuple):
-            o.refute(f, r[1].node, label, f"move() validates that {label} only after the list was changed")
-        else:
-            o.site(f, r.node, label)
+    a, op, b = t.left, type(t.ops[0]), t.comparators[0]
+    ln = ast.Call(func=ast.Name(id='len', ctx=ast.Load()), args=[l], keywords=[])
+    flip = {ast.Lt: ast.Gt, ast.Gt: ast.Lt, ast.LtE: ast.GtE, ast.GtE: ast.LtE}
+    neg = {ast.Lt: ast.GtE, ast.GtE: ast.Lt, ast.Gt: ast.LtE, ast.LtE: ast.Gt}
+    if op not in flip:
+        return None
+    if same(b, i) and same(a, ln):
+        a, b, op = b, a, flip[op]
+    # i <= len(l) - 1   /   i + 1 <= len(l)
+    if same(a, i) and isinstance(b, ast.BinOp) and isinstance(b.op, ast.Sub) and same(b.left, ln) and facts.const_num(b.right) == 1 \
+            and op in (ast.LtE, ast.Gt):
+        b, op = ln, (ast.Lt if op is ast.LtE else ast.GtE)
+    if not (same(a, i) and same(b, ln)):
+        return None
+    if not p:
+        op = neg[op]
+    return op is ast.Lt
+
+
+def _bounded_lookup(e, path_conds):
+    """anchor value `l[i]` guarded by `i < len(l)` (conditional expression with None on the other side, or path condition of the
+    statement).  -> ('ok', l, i) | ('bad', l, i, why) | None (shape not recognised)"""
+    if isinstance(e, ast.IfExp) and (_is_none(e.body) != _is_none(e.orelse)):
+        sub, pol = (e.body, True) if _is_none(e.orelse) else (e.orelse, False)
+        if isinstance(sub, ast.Subscript) and not isinstance(sub.slice, ast.Slice):
+            l, i = sub.value, sub.slice
+            verdicts = [_lt_len(a, q, l, i) for a, q in facts.split_conj(e.test, pol)]
+            if any(v is True for v in verdicts):
+                return ('ok', l, i)
+            if any(v is False for v in verdicts):
+                return ('bad', l, i, f"the bound `{src(e.test)}` lets index == len(list) through (IndexError)")
+            return None
+        return None
+    if isinstance(e, ast.Subscript) and not isinstance(e.slice, ast.Slice):
+        l, i = e.value, e.slice
+        verdicts = [_lt_len(a, q, l, i) for a, q in path_conds]
+        if any(v is True for v in verdicts):
+            return ('ok', l, i)
+        return ('bad', l, i, "the lookup is not bounded by the list length: a bad index raises IndexError")
+    return None
+
+
+def _list_without(l, task_p):
+    """True: l is the live child list filtered by `!= task` / `is not task`; False: l is (a plain copy of) the live list itself, which
+    may contain the inserted task; None: not recognised"""
+    if isinstance(l, ast.BinOp) and isinstance(l.op, ast.Add):      # [] + [..]
+        if isinstance(l.left, ast.List) and not l.left.elts:
+            return _list_without(l.right, task_p)
+        if isinstance(l.right, ast.List) and not l.right.elts:
+            return _list_without(l.left, task_p)
+        return None
+    m = match("list($x)", l) or match("$x.copy()", l) or match("$x[:]", l) or match("tuple($x)", l)
+    if m:
+        return _list_without(m['x'], task_p)
+    if match("self._list", l) or match("self", l):
+        return False
+    parts = facts.comp_parts(l)
+    if parts and isinstance(parts[0], ast.Name) and isinstance(parts[1], ast.Name) and parts[0].id == parts[1].id and \
+            (match("self._list", parts[2]) or match("self", parts[2])):
+        v = parts[1].id
+        if not parts[3]:
+            return False
+        for c in parts[3]:
+            for a, q in facts.split_conj(c, True):
+                if facts.cond_is(a, q, f"{v} == {task_p}", False) is not None or facts.cond_is(a, q, f"{task_p} == {v}", False) is not None or \
+                        facts.cond_is(a, q, f"{v} is {task_p}", False) is not None or facts.cond_is(a, q, f"{task_p} is {v}", False) is not None:
+                    return True
+        return None
+    return None
 
 
 def insert_rule(ctx, o):
@@ -401,63 +590,96 @@ def insert_rule(ctx, o):
     f = prog.func('task._ChildrenList.insert')
     cfg = cfg_of(f)
     fl = flow_of(f)
-    ex = Expander(prog, f, ctx.typer, inline=False)
+    ex = Expander(prog, f, ctx.typer, inline=True)
+    eff = Effects(prog, ctx.typer, ctx.cg)
     idx_p, task_p = f.params[1], f.params[2]
-    att = [st for st, tgt, val in facts.attr_stores(f, 'parent') if isinstance(tgt.value, ast.Name) and tgt.value.id == task_p]
-    if len(att) != 1:
-        o.undecided(f, f.node, 'insert', "insert does not attach the task exactly once")
-        return
-    an = cfg.node_of(att[0])
     mv = [c for c in facts.calls_named(f, 'move')]
-    if not mv:
-        o.site(f, att[0], "insert only appends")
+    # the attach: every write of relation state that is not the move() itself
+    att = [(cn, n) for cn, n, _ in relation_write_nodes(ctx, f, eff) if not any(n is c for c in mv)]
+    if not att:
+        o.undecided(f, f.node, 'insert', "insert does not attach the task (no relation write besides move())")
         return
+    if not mv:
+        o.site(f, att[0][1], "insert only appends")
+        return
+    neg_seen = None
     for c in mv:
+        cn = cfg.node_containing(c)
+        before_c = [a for a in att if cfg.can_reach(a[0], cn)]
         ba = facts.bound_args(c, prog.func('task._ChildrenList.move'))
         anchor = ba[1] if len(ba) > 1 else None
         after_arg = ba[2] if len(ba) > 2 else None
-        if anchor is None or (after_arg is not None and not (isinstance(after_arg, ast.Constant) and after_arg.value is None)):
+        if anchor is None or (after_arg is not None and not _is_none(after_arg)):
             o.undecided(f, c, c, "move() call without a `before` anchor")
             continue
+        if not before_c:
+            o.undecided(f, c, c, "move() is not preceded by the attach")
+            continue
         if not isinstance(anchor, ast.Name):
-            if any(isinstance(x, ast.Subscript) for x in ast.walk(anchor)) and cfg.can_reach(an, cfg.node_containing(c)):
+            live = any(match("self._list", x) or match("self[$i]", x) for x in ast.walk(anchor))
+            if any(isinstance(x, ast.Subscript) for x in ast.walk(anchor)) and live:
                 o.refute(f, c, anchor, f"the anchor `{src(anchor)}` is looked up after the task was attached: a bad index raises after the "
                                        f"attach, and index == len(list) refers to the task itself")
             else:
                 o.undecided(f, c, anchor, "anchor expression not recognised")
             continue
-        d = fl.unique_def(anchor.id, cfg.node_containing(c))
-        if d is None or d.kind != 'assign':
-            o.undecided(f, c, anchor, "anchor has several definitions")
+        defs = fl.reaching(anchor.id, cn)
+        if not defs or any(d.kind != 'assign' or d.node is None for d in defs):
+            o.undecided(f, c, anchor, "anchor is not a local with plain assignments")
             continue
-        if not (cfg.dominates(d.node, an) and not cfg.can_reach(an, d.node)):
-            o.refute(f, d.stmt, d.stmt, "the anchor is resolved after the task was attached")
+        late = [d for d in defs if any(cfg.can_reach(a[0], d.node) for a in before_c)]
+        if late:
+            o.refute(f, late[0].stmt, late[0].stmt, "the anchor is resolved after the task was attached")
             continue
-        v = d.value
-        m = match("$l[$i] if $i < len($l) else None", v) or match("None if $i >= len($l) else $l[$i]", v) or \
-            match("$l[$i] if len($l) > $i else None", v)
-        if not m:
-            o.refute(f, d.stmt, d.stmt, f"the anchor `{src(v)[:60]}` is not bounded by the list length: a bad index raises IndexError")
+        e = ex.expand(anchor, cn)
+        path = []
+        if len(defs) == 1:
+            path = facts.node_conditions(prog, f, defs[0].stmt, ctx.typer, expand=True)
+        r = _bounded_lookup(e, path)
+        if r is None:
+            o.undecided(f, c, anchor, f"anchor value `{src(e)[:80]}` is not a bounded lookup the rule recognises")
             continue
-        lx = ex.expand(m['l'], d.node)
-        parts = facts.comp_parts(lx)
-        if parts and match("self._list", parts[2]) and len(parts[3]) == 1 and \
-                (match(f"{parts[1].id} != {task_p}", parts[3][0]) or match(f"{parts[1].id} is not {task_p}", parts[3][0])):
-            o.site(f, d.stmt, "anchor = (list without the task)[index] or None, resolved before the attach")
+        if r[0] == 'bad':
+            o.refute(f, defs[0].stmt, defs[0].stmt, f"the anchor `{src(e)[:60]}`: {r[3]}")
+            continue
+        _, l, i = r
+        lw = _list_without(l, task_p)
+        if lw is True:
+            o.site(f, defs[0].stmt, "anchor = (list without the task)[index] or None, resolved before the attach")
+        elif lw is False:
+            o.refute(f, defs[0].stmt, defs[0].stmt, f"the anchor is taken from `{src(l)[:50]}`, which may contain the inserted task itself")
+            continue
         else:
-            o.refute(f, d.stmt, d.stmt, f"the anchor is taken from `{src(lx)[:50]}`, which may contain the inserted task itself")
+            o.undecided(f, defs[0].stmt, defs[0].stmt, f"the list `{src(l)[:60]}` the anchor is taken from is not recognised")
             continue
         conds = facts.node_conditions(prog, f, c, ctx.typer, expand=False)
-        if any(match(f"{anchor.id} is not None", t) and p for t, p in conds):
+        nn = any(facts.cond_is(a, q, f"{anchor.id} is None", False) is not None for a, q in conds)
+        if not nn and isinstance(e, ast.Subscript):
+            nn = True        # a plain bounded lookup (path condition) always yields a task
+        if nn:
             o.site(f, c, "move() only with a resolved anchor")
         else:
             o.refute(f, c, c, "move() is called although no anchor was resolved")
-    # a negative index must be normalised (or rejected) before use
-    neg = [n for n in walk_no_nested(f.node) if isinstance(n, ast.If) and match(f"{idx_p} < 0", n.test)]
-    if neg and cfg.dominates(cfg.node_of(neg[0]), an):
-        o.site(f, neg[0], "negative index handled before the attach")
-    else:
-        o.refute(f, f.node, 'negative index', "a negative index is not handled before the attach")
+        neg_seen = neg_seen or _negative_index(ctx, f, i, idx_p, defs[0].node)
+    if neg_seen:
+        o.site(f, f.node, neg_seen)
+
+
+def _negative_index(ctx, f, i, idx_p, at):
+    """how a negative index is dealt with.  Whatever it is, it happens before the attach (the index expression is part of the anchor,
+    which was shown to be resolved before it), so a failure there changes nothing"""
+    fl = flow_of(f)
+    if isinstance(i, ast.IfExp) and any(facts.cond_is(a, q, "$p < 0", q) is not None for a, q in facts.split_conj(i.test, True)):
+        return "negative index normalised before the attach"
+    if isinstance(i, ast.Name):
+        for d in fl.reaching(i.id, at):
+            if d.kind == 'assign' and d.stmt is not None:
+                for a, q in facts.node_conditions(ctx.prog, f, d.stmt, ctx.typer, expand=False):
+                    if facts.cond_is(a, q, f"{i.id} < 0", True) is not None or facts.cond_is(a, q, f"{idx_p} < 0", True) is not None:
+                        return "negative index normalised before the attach"
+    if any(isinstance(x, ast.Call) and isinstance(x.func, ast.Name) and x.func.id in ('max', 'min') for x in ast.walk(i)):
+        return "index clamped before the attach"
+    return "index used as given, before the attach (a failing lookup changes nothing)"
 
 
 def reorder_rule(ctx, o):
